@@ -137,4 +137,34 @@ PROPS = {
         "floor": {"quick": 100, "thorough": 2000},
         "assumptions": COMMON_ASSUME + ["user actions and invocations are separated by at least one clock tick in both clock models"],
     },
+    "C13": {
+        "level": "exploration",
+        "stages": [hist("ident", "ident::ident_c13", 12000, 400000)],
+        "rule": "case = one pair of parser-producible rules (a base rule over an adversarial string pool and a near-miss of it: permuted lists, a string moved across a section boundary, split/merged/swapped/sorted/duplicated command lines, added/removed/renamed path, or an independent rule); identity equality must coincide with equality of (target set, source set, command list), on the in-memory rules and again after rendering both (flat or bundled) and parsing with the real parser; distinct by the pair; non-trivial for every near-miss pair",
+        "floor": {"quick": 10000, "thorough": 200000},
+        "assumptions": ["SHA-256 collisions aside", "rules are parser-producible: no repeated entry and no file/directory clash inside a section, no empty or ':' lines"],
+    },
+    "C14": {
+        "level": "exploration",
+        "stages": [hist("parse", "parse::parse_c14", 20000, 600000)],
+        "rule": "case = one text given to the real parser under catch_unwind and to the reference reading (harness/drivers/parse.rs): rendered random rule sets under all formatting choices, single and double corruptions (deleted line, inserted blank line or ':', duplicated ':', truncation with/without newline, extra indentation, file/directory clash, tabs-only line), token soup, line soup, bundles nested up to 60 levels, 3000-token soup; every fifth case also goes through parse_all with a second file; distinct by text; non-trivial when the text has at least one complete section",
+        "floor": {"quick": 10000, "thorough": 300000},
+        "assumptions": ["the reference reading in harness/drivers/parse.rs is the documented format", "bundle nesting <= 60 levels, inputs <= ~10 KB"],
+    },
+    "C15": {
+        "level": "exploration",
+        "stages": [hist("hash", "hashd::hash_c15", 150, 2000),
+                   {"name": "hashlib", "kind": "python", "module": "offline_oracles", "oracle": "hash", "source_stage": "hash"}],
+        "rule": "case = one file content hashed by ruler through short-read handles at several paths/ages (every length 0..1100, boundary and random lengths up to 300 KB / 1.1 MB), one 256-bit value round trip (edge values, 62^k and neighbours, leading-zero digits, random), one string offered to the decoder (every length 0..60, foreign characters, the 200 smallest values above 2^256-1, random 43-character strings judged by a reference decoder), or one directory tree with a single-point change; the exported cases are re-checked with Python hashlib; distinct by value",
+        "floor": {"quick": 2000, "thorough": 20000},
+        "assumptions": ["oracle: Python hashlib.sha256 and an independent base-62 implementation (pytools/bincode_reader.py), plus the harness's own SHA-256 in-process"],
+    },
+    "C16": {
+        "level": "exploration",
+        "stages": [dict(hist("codec", "codec::codec_c16", 14, 200), crash_is_violation=True),
+                   {"name": "layout", "kind": "python", "module": "offline_oracles", "oracle": "layout", "source_stage": "codec"}],
+        "rule": "case = one (state-file instance, damage) pair: write/read round trip through ruler's own writer and reader on a fresh handle, every strict prefix, single bit flips (every position of small images), random byte strings; a panic or a process abort is a violation, an accepted prefix is a violation; exported images are decoded by an independent bincode reader; distinct by (image, damage)",
+        "floor": {"quick": 10000, "thorough": 200000},
+        "assumptions": ["instances: 0..50 entries, 1..8 targets; hashes are arbitrary 256-bit values made through the text form"],
+    },
 }
